@@ -1225,7 +1225,13 @@ func sameSet(a, b map[string]bool) bool {
 // returnsOf lists the Return instructions of fn.
 func returnsOf(fn *ssa.Function) []*ssa.Return {
 	var out []*ssa.Return
+	skipRecover := fn.Recover != nil && !defersRecover(fn)
 	for _, b := range fn.Blocks {
+		if skipRecover && b == fn.Recover {
+			// the synthetic recover block only runs after a deferred call
+			// recovered a panic; no deferred call of fn does
+			continue
+		}
 		for _, in := range b.Instrs {
 			if r, ok := in.(*ssa.Return); ok {
 				out = append(out, r)
@@ -1348,4 +1354,29 @@ func usesOf(v ssa.Value) []ssa.Instruction {
 		return *r
 	}
 	return nil
+}
+
+// defersRecover reports whether some deferred function of fn calls recover().
+func defersRecover(fn *ssa.Function) bool {
+	found := false
+	instrsOf(fn, func(in ssa.Instruction) {
+		d, ok := in.(*ssa.Defer)
+		if !ok {
+			return
+		}
+		callee := deferCallee(d)
+		if callee == nil {
+			found = true // unknown deferred function: assume it may recover
+			return
+		}
+		if callee.Blocks == nil {
+			return // library function (Unlock, Stop, Close...): does not recover for its caller
+		}
+		instrsOf(callee, func(x ssa.Instruction) {
+			if c, ok := x.(ssa.CallInstruction); ok && builtinName(c) == "recover" {
+				found = true
+			}
+		})
+	})
+	return found
 }
